@@ -126,9 +126,24 @@ func (jenny *Builder) generateBuilder(context languages.Context, builder ast.Bui
 		})
 	}
 
+	// the modules imported by the file are known under the name of their package: a method or a
+	// function of that name would take the place of the module in everything written after it.
+	moduleAliases := map[string]struct{}{"cogbuilder": {}}
+	for _, schema := range context.Schemas {
+		moduleAliases[schema.Package] = struct{}{}
+	}
+
 	return jenny.tmpl.
 		Funcs(common.TypeResolvingTemplateHelpers(context)).
 		Funcs(map[string]any{
+			"formatFunctionName": func(name string) string {
+				formatted := formatFunctionName(name)
+				if _, shadowsModule := moduleAliases[formatted]; shadowsModule {
+					return formatted + "_val"
+				}
+
+				return formatted
+			},
 			"isDisjunctionOfBuilders": context.IsDisjunctionOfBuilders,
 			"formatType":              jenny.typeFormatter.formatType,
 			"formatTypeNotNullable": func(def ast.Type) string {
